@@ -70,6 +70,8 @@ var sweepTainted = []string{
 	"(lit)", "x", "x", "(cdr x)", "(rest x)", "(slice 'list x 0 2)", "(slice 'list x 1 3)", "(slice 'vector x 0 2)",
 	"(cdr (cdr x))", "(slice 'list (cdr x) 0 1)", "(elpspath:? x '(range 0 2))", "(append 'vector x)",
 	"(vector x x)", "(sorted-map \"k\" x)", "(list x (cdr x))", "(car (list x))",
+	"(slice 'list x 0 1)", "(slice 'list x 0 0)", "(concat 'list x)", "(cons 0 x)",
+	"(quasiquote ((unquote-splicing x)))", "(quasiquote ((unquote-splicing (cdr x))))", "(quasiquote (0 (unquote-splicing x)))",
 }
 
 var sweepPlain = []string{
